@@ -67,3 +67,6 @@ func SetConfig(key, value string) {}
 // RegistrationClosure returns the idx-th func(grpc.ServiceRegistrar) literal
 // of cmd.<fn> with opaque captured variables (engine only; nil natively).
 func RegistrationClosure(fn string, idx int) func(grpc.ServiceRegistrar) { return nil }
+
+// DeepEqual: structural equality (reflect.DeepEqual natively).
+func DeepEqual(a, b interface{}) bool { return false }
